@@ -73,10 +73,33 @@ func H_safe() {
 			return
 		}
 		N = append([]byte{}, O[B:]...)
+	case 4, 5:
+		// (with pre) f becomes a second whole-file copy of the kept neighbour / of the dropped one: set below
+		N = nil
 	}
 	root := rt.TempDir()
 	oldB := &hlib.Build{Files: []hlib.File{{Path: "f", Data: O}}}
 	newB := &hlib.Build{Files: []hlib.File{{Path: "f", Data: N}}}
+	var pre []hlib.File
+	if rt.HasParam("pre") {
+		// other files before f in the container (an empty one: it owns a zero-length hash; an unchanged one; one that
+		// new drops), so that f's hashes do not start at index 0 of the signature
+		// (concrete, distinct bytes: the quantifier of these instances is f's pristine and damaged content)
+		kept := make([]byte, B+1)
+		for i := range kept {
+			kept[i] = byte(201 + i)
+		}
+		pre = []hlib.File{{Path: "a-empty", Data: []byte{}}, {Path: "b-kept", Data: kept}, {Path: "c-dropped", Data: []byte{250}}}
+		if rel == 4 {
+			N = append([]byte{}, pre[1].Data...)
+			newB.Files[0].Data = N
+		} else if rel == 5 {
+			N = append([]byte{}, pre[2].Data...)
+			newB.Files[0].Data = N
+		}
+		oldB.Files = append(append([]hlib.File{}, pre...), oldB.Files...)
+		newB.Files = append([]hlib.File{{Path: "a-empty", Data: []byte{}}, {Path: "b-kept", Data: append([]byte{}, pre[1].Data...)}}, newB.Files...)
+	}
 	oldB.Write(root + "/old")
 	newB.Write(root + "/new")
 	d := hlib.Diff(root+"/old", root+"/new")
@@ -85,6 +108,9 @@ func H_safe() {
 	// the damaged old build
 	dmg := root + "/damaged"
 	hlib.Must(os.MkdirAll(dmg, 0o755), "mkdir")
+	for _, f := range pre {
+		hlib.Must(os.WriteFile(dmg+"/"+f.Path, f.Data, 0o644), "write undamaged neighbour")
+	}
 	var A []byte
 	if na >= 0 {
 		A = rt.Bytes("damaged", na)
